@@ -24,7 +24,8 @@ INV = ["TypeOK", "StartsClean"]
 PROPS = ["ConstructRestores", "TryRestoresState", "AppendOnly"]
 
 def gen_and_replay(rep, wd, exe, module, label, consts, subst, workers=12, heap="8g", timeout=3000,
-                   replay_cmd="replay-exec", extra_inv=(), sample_at=(3, 777), simulate=None, depth=None, seed=None):
+                   replay_cmd="replay-exec", extra_inv=(), sample_at=(3, 777), simulate=None, depth=None, seed=None,
+                   trace_execs=400, shards=4):
     c = dict(BASE)
     c.update(consts)
     cfg = "gen_%s.cfg" % label
@@ -40,8 +41,29 @@ def gen_and_replay(rep, wd, exe, module, label, consts, subst, workers=12, heap=
             if i in sample_at:
                 v = json.loads(line)
                 rep.sample({"tag": v.get("tag"), "entry_source_abstract": v["case"]["ts"][0], "expected": v["results"]}, limit=3)
-    n, bad = replay_vectors(rep, exe, replay_cmd, vec)
+    # code -> spec: the first `trace_execs` vectors are replayed once more with the hooks' tracer on and the
+    # recorded event stream is validated by TLC against Trace_Exec.tla
+    n, bad = replay_vectors(rep, exe, replay_cmd, vec, shards=shards)
+    if trace_execs and replay_cmd == "replay-exec":
+        import exectrace
+        sub = vec + ".tr"
+        with open(vec) as f, open(sub, "w") as g:
+            for i, line in enumerate(f):
+                if i % max(1, (n // trace_execs)) == 0:
+                    g.write(line)
+        ev = os.path.join(wd, "events_%s.ndjson" % label)
+        p = run_harness(exe, [replay_cmd, sub, sub + ".res"], env={"VERIF_TRACE": ev}, timeout=1800)
+        if p.returncode != 0:
+            raise Inconclusive("traced replay failed: " + (p.stderr or p.stdout)[-1000:])
+        exectrace.validate(rep, wd, ev, "Trace_Exec_" + label)
     return n, bad
+
+def repo_suite_traces(rep, wd):
+    """the repository's own tests, run with the hooks on, as a trace source (code -> spec)"""
+    import exectrace
+    ev = exectrace.record_repo_tests(wd)
+    n = exectrace.validate(rep, wd, ev, "Trace_Exec_repo_tests")
+    rep.notes.append("repository test-suite traced with -tags verif: %d executions validated by Trace_Exec" % n)
 
 def asis_refuted(rep, wd, module, label, consts, subst, expect, workers=8):
     """Design-level record of a repaired defect: the as-implemented variant must be refuted by TLC."""
